@@ -254,3 +254,78 @@ def run(rep: Report, prog: Program, tier: str) -> None:
             rep.fail(mk_finding(prog, PROP, "C10-FRAMES", rf, rf.node, f"[{label}] " + "; ".join(problems), construct="frames: " + problems[0].split(" is ")[0][:40] + f" (prefetch {prefetch})"))
         else:
             rep.ok("C10-FRAMES", label, sample=f"{len(got)} frames released, each complete and in order")
+
+    # ---- C10-OVERFLOW (finite evaluation with losses: a packet lost for good pins the buffer until it overflows)
+    rep.rule("C10-OVERFLOW", "losses and overflow: only whole sent frames (or, right after a discard, the tail of one) are released, in sending order, and a key-frame request is raised", min_instances=30)
+    pattern = (2, 3, 1, 4, 2, 1, 3)
+    n_cases = 0
+    for start, lost_at, gap_at, gap, prefetch in itertools.product((0, 65520), (1, 3), (14, 17, 22), (0, 1, 4, 7), (0, 2)):
+        pkts = []
+        seq = start
+        fi_ = 0
+        while len(pkts) < 60:
+            n = pattern[fi_ % len(pattern)]
+            for k in range(n):
+                pkts.append(SimpleNamespace(sequence_number=seq % 65536, timestamp=(90000 + 3000 * fi_) % (1 << 32), _data=bytes([fi_, k]), frame=fi_))
+                seq += 1
+            fi_ += 1
+        lost = {lost_at} | set(range(gap_at, gap_at + gap))
+        label = f"first seq {start}, packet #{lost_at} lost for good, {gap} more lost from #{gap_at}, prefetch {prefetch}"
+        n_cases += 1
+        try:
+            jb = oh.instantiate(ci, [], dict(capacity=16, prefetch=prefetch, is_video=True), evj)
+            out = []
+            pli = False
+            since = True  # the first released frame may be a tail (stream start)
+            for i, p in enumerate(pkts):
+                if i in lost:
+                    continue
+                r = oh.run_method(add, jb, [p], {})
+                pli = pli or bool(r[0])
+                since = since or bool(r[0])
+                if r[1] is not None:
+                    out.append((r[1], since))
+                    since = False
+        except Raised as ex:
+            rep.fail(mk_finding(prog, PROP, "C10-OVERFLOW", add, getattr(ex, "node", None), f"[{label}] add() raises {ex.name}", construct=f"overflow raises {ex.name}"))
+            continue
+        except Unknown as ex:
+            raise AnalysisError(f"C10-OVERFLOW cannot evaluate [{label}]: {ex}")
+        frames = {}
+        for i, p in enumerate(pkts):
+            frames.setdefault(p.frame, []).append((i, p))
+        problems = []
+        last_end = -1
+        used = set()
+        for fr, discarded_before in out:
+            # identify the run of sent packets this frame is made of
+            run = None
+            for f, v in frames.items():
+                datas = [p._data for _i, p in v]
+                for a in range(len(v)):
+                    if b"".join(datas[a:]) == fr.data and not any(v[x][0] in lost for x in range(a, len(v))):
+                        run = (f, a, [v[x][0] for x in range(a, len(v))])
+                        break
+                if run:
+                    break
+            if run is None:
+                problems.append(f"released {fr.data.hex()}, which is neither a complete sent frame nor the tail of one (hole or splice)")
+                break
+            f, a, idxs = run
+            if a != 0 and not discarded_before:
+                problems.append(f"released the tail of frame #{f} although nothing had been discarded since the previous frame")
+                break
+            if idxs[0] <= last_end or used & set(idxs):
+                problems.append(f"frame #{f} released out of order / a packet used twice")
+                break
+            used |= set(idxs)
+            last_end = idxs[-1]
+        if not pli:
+            problems.append("packets were discarded but no key-frame request was raised")
+        if len(out) < 3:
+            problems.append(f"only {len(out)} frames were released: the buffer did not recover")
+        if problems:
+            sr = prog.func(JB + ".smart_remove")
+            rep.fail(mk_finding(prog, PROP, "C10-OVERFLOW", sr, sr.node, f"[{label}] " + "; ".join(problems), construct="overflow: " + problems[0].split(",")[0].split(" #")[0][:50]))
+        else:
+            rep.ok("C10-OVERFLOW", label, sample=f"{len(out)} frames released in order (tails only right after a discard), PLI raised")
